@@ -26,6 +26,13 @@ def cases(rng, tier):
     n_ = {"quick": 300, "thorough": 3000}.get(tier, 200)
     for _ in range({"quick": 1, "thorough": 4}.get(tier, 1)):
         yield long_case(rng)         # more than a million samples (a day at 10 Hz): the definition is global
+    for dt in ("uint8", "uint16", "int8", "int64"):
+        # a per-sample decibel profile stored compactly in an integer dtype
+        n = rng.randint(3, 12)
+        yield {"snr_dtype": dt, "a": [str(v) for v in rng.values(n)], "mode": "db", "per": True,
+               "snr": [rng.choice([0, 10, 20, 30, 3, 7, 12]) for _ in range(n)], "std": 1.0,
+               "draw": [str(rng.dyadic(-40, 40, 16)) for _ in range(n)], "via": rng.choice(["process", "weaver"]),
+               "stat": False, "seed": 0}
     for i in range(n_):
         n = rng.randint(1, 40)
         a = rng.values(n)
